@@ -129,6 +129,7 @@ type Exec struct {
 	callCells   map[string]*Cell // ghost counters: calls("pattern")
 	ifaceVals   map[*Term]Val    // interface id -> boxed value (Go side)
 	inlinedInstr int
+	opaqueDone   map[string]bool
 	pendingSummaries []*wset // write sets of summarised callees: heaps first touched later must still be havocked
 	havocEpoch  int
 }
@@ -466,10 +467,40 @@ func (ex *Exec) packKey(st *State, m *types.Map, k Val) *Term {
 	}
 	fn := "key_" + heapKeyT(m.Key())
 	kt := UF(fn, SInt, k.L...)
-	for i, l := range k.L {
-		ex.assumeRaw(Eq(UF(fmt.Sprintf("%s_inv%d", fn, i), l.sort, kt), l))
-	}
+	keyAxioms(fn, ls)
 	return kt
+}
+
+// keyAxioms declares the packing function of a multi-leaf map key type as a bijection (once per type).
+func keyAxioms(fn string, ls []Leaf) {
+	fn = sanitize(fn)
+	if _, ok := TS.axioms[fn]; ok {
+		return
+	}
+	var decl, names, invs []string
+	for i, l := range ls {
+		decl = append(decl, fmt.Sprintf("(x%d %s)", i, l.Sort))
+		names = append(names, fmt.Sprintf("x%d", i))
+		DeclFun(fmt.Sprintf("%s_inv%d", fn, i), []Sort{SInt}, l.Sort)
+	}
+	var srts []Sort
+	for _, l := range ls {
+		srts = append(srts, l.Sort)
+	}
+	DeclFun(fn, srts, SInt)
+	app := fmt.Sprintf("(%s %s)", fn, strings.Join(names, " "))
+	var eqs []string
+	for i := range ls {
+		eqs = append(eqs, fmt.Sprintf("(= (%s_inv%d %s) x%d)", fn, i, app, i))
+		invs = append(invs, fmt.Sprintf("(%s_inv%d k)", fn, i))
+	}
+	ax := fmt.Sprintf("(assert (forall (%s) (! (and %s) :pattern (%s))))", strings.Join(decl, " "), strings.Join(eqs, " "), app)
+	ax += fmt.Sprintf("\n(assert (forall ((k Int)) (! (= (%s %s) k) :pattern (%s))))", fn, strings.Join(invs, " "), invs[0])
+	TS.axioms[fn] = ax
+	for i := range ls {
+		// make sure the axiom is emitted when only an inverse occurs
+		TS.axioms[fmt.Sprintf("%s_inv%d", fn, i)] = "; see " + fn
+	}
 }
 
 func (ex *Exec) unpackKey(m *types.Map, kt *Term) Val {
@@ -478,14 +509,10 @@ func (ex *Exec) unpackKey(m *types.Map, kt *Term) Val {
 		return Val{T: m.Key(), L: []*Term{kt}}
 	}
 	fn := "key_" + heapKeyT(m.Key())
+	keyAxioms(fn, ls)
 	v := Val{T: m.Key(), L: make([]*Term, len(ls))}
-	var parts []*Term
 	for i, l := range ls {
 		v.L[i] = UF(fmt.Sprintf("%s_inv%d", fn, i), l.Sort, kt)
-		parts = append(parts, v.L[i])
-	}
-	if len(ls) > 0 {
-		ex.assumeRaw(Eq(UF(fn, SInt, parts...), kt))
 	}
 	return v
 }
@@ -1147,6 +1174,11 @@ func (ex *Exec) discover(fr *Frame, h *ssa.BasicBlock, in *State, back map[[2]in
 	saveA, saveO, saveF := len(ex.assumps), len(ex.obligs), TS.fresh
 	_ = saveF
 	saveLog := ex.wlog
+	saveOrd := map[string]int{}
+	for k, v := range ex.callOrd {
+		saveOrd[k] = v
+	}
+	defer func() { ex.callOrd = saveOrd }()
 	wl := &writeLog{cells: map[*Cell]bool{}, heaps: map[string]*heapW{}}
 	ex.wlog = wl
 	ex.dry++
